@@ -20,7 +20,7 @@ Not decided: byte-exactness/ordering of delivery, timing, the AAD/nonce layout
 from sa import absval as av
 from sa.build import AnalysisBroken
 from sa.cg import load_cg
-from sa.ir import load_program, strip, lvalue_root, field_key
+from sa.ir import relpath, load_program, strip, lvalue_root, field_key
 from sa.ps import Engine
 from sa.report import Finding, Result
 from rules.common import (K_ERR, K_FLAGS, K_HS, SslTracker, TagTracker, dominated_success,
@@ -226,7 +226,7 @@ def rule_R2(res, prog, cg, c):
         if problems:
             f = Finding(PROP, "C02.R2", "supportedCiphers", "row 0x%04x: %s" % (ident, problems[0].split(" (")[0]),
                         "cipher-suite table row 0x%04x: %s" % (ident, "; ".join(problems)),
-                        file=g["file"].replace("/repo/", ""), line=g["line"])
+                        file=relpath(g["file"]), line=g["line"])
         res.instance("C02.R2", "supportedCiphers row 0x%04x decrypt=%s verifyMac=%s macSize=%s" % (
             ident, r["decrypt"], r["verifyMac"], r["macSize"]), not problems, finding=f)
     # who-may-write the slots
